@@ -245,12 +245,15 @@ def run_candidate(c):
                     color[u] = 2
                     return False
                 cyclic = any(dfs(u) for u in range(n) if u not in color)
-                if c["realise"] == "fb":
+                # how one reference is written: plain, with a structure-style initializer, or as array element type
+                ref = {"": "%s", "_init": "%s := (x := TRUE)", "_array": "ARRAY[1..2] OF %s"}[
+                    c["realise"].replace("fb", "").replace("struct", "")]
+                if c["realise"].startswith("fb"):
                     text = "".join("FUNCTION_BLOCK %s\nVAR\n%s x : BOOL;\nEND_VAR\nEND_FUNCTION_BLOCK\n" % (
-                        names[a], "".join(" i%d : %s;\n" % (k, names[b]) for k, b in enumerate(adj[a]))) for a in range(n))
+                        names[a], "".join(" i%d : %s;\n" % (k, ref % names[b]) for k, b in enumerate(adj[a]))) for a in range(n))
                 else:
                     text = "TYPE\n" + "".join(" %s : STRUCT\n%s  x : BOOL;\n END_STRUCT;\n" % (
-                        names[a], "".join("  m%d : %s;\n" % (k, names[b]) for k, b in enumerate(adj[a]))) for a in range(n)) + "END_TYPE\n"
+                        names[a], "".join("  m%d : %s;\n" % (k, ref % names[b]) for k, b in enumerate(adj[a]))) for a in range(n)) + "END_TYPE\n"
                 path = os.path.join(d, "g.st")
                 open(path, "w").write(text)
                 rc, so, se = run(binp, ["check", "g.st"], d)
